@@ -180,6 +180,18 @@ def reforge(it, c):
     return c
 
 
+def field(it, inst, name, default=None):
+    """a public field of a package object as a caller reads it: the instance attribute, or what a property of that name returns"""
+    if not isinstance(inst, Inst):
+        return default
+    if name in inst.attrs:
+        return inst.attrs[name]
+    try:
+        return it.getattr(inst, name)
+    except (RaiseEx, Fail):
+        return default
+
+
 def call_method(it, obj, name, *args, **kw):
     return it.call(it.getattr(obj, name), list(args), dict(kw))
 
